@@ -358,3 +358,44 @@ func jitter() {
 		}
 	}
 }
+
+// A Phase runs one thread until it has made Until yields (Until < 0: until it
+// is done). ChoosePhases runs the phases in order and then falls back to then.
+// "Park A at its k-th scheduling point, run B to completion, resume A" is
+// [{A,k},{B,-1}] followed by any strategy.
+type Phase struct {
+	Thread int `json:"t"`
+	Until  int `json:"until"`
+}
+
+func ChoosePhases(phases []Phase, then func(*Sched, []*Thread) *Thread) func(*Sched, []*Thread) *Thread {
+	idx := 0
+	return func(s *Sched, r []*Thread) *Thread {
+		for idx < len(phases) {
+			ph := phases[idx]
+			if ph.Thread >= len(s.Threads) {
+				idx++
+				continue
+			}
+			t := s.Threads[ph.Thread]
+			if !t.Runnable() || (ph.Until >= 0 && t.Steps >= ph.Until) {
+				idx++
+				continue
+			}
+			if t.Spin {
+				// it waits for a lock someone else holds: let the others move
+				var o []*Thread
+				for _, x := range r {
+					if x != t {
+						o = append(o, x)
+					}
+				}
+				if len(o) > 0 {
+					return o[s.Rnd.Intn(len(o))]
+				}
+			}
+			return t
+		}
+		return then(s, r)
+	}
+}
